@@ -265,7 +265,7 @@ def molecule(closed_shell=True, max_heavy=None, periodic=True):
     mols = load_molecules(True, max_heavy)
     parts = [indexed(mols), edited_molecule(closed_shell=closed_shell, max_heavy=max_heavy)]
     if periodic:
-        parts.append(st.sampled_from(periodic_closed_shell() if closed_shell else periodic_species()))
+        parts.append(st.sampled_from((periodic_closed_shell() + periodic_covalent()) if closed_shell else periodic_species()))
     return st.one_of(*parts)
 
 
@@ -577,3 +577,22 @@ def near_duplicate_pair_reaction(draw):
     if draw(st.booleans()):
         return ".".join(pair) + ">>" + flat, ["near-duplicate-pair"]
     return flat + ">>" + ".".join(pair), ["near-duplicate-pair"]
+
+
+@functools.lru_cache(maxsize=None)
+def periodic_covalent():
+    """closed-shell covalent species X(Cl)n / X(CH3)n / X(=O)... for every element: the neutral bracket atom [X] with
+    1-6 single bonds (whatever RDKit accepts without radicals). Gives two-letter symbols *inside* molecules
+    (Cl[Sc](Cl)Cl, C[Sn](C)(C)C, Cl[Ti](Cl)(Cl)Cl, F[Xe]F ...), which bare atoms cannot (most are radicals)."""
+    pt = Chem.GetPeriodicTable()
+    out = []
+    for z in range(3, 119):
+        sym = pt.GetElementSymbol(z)
+        for lig in ("Cl", "C", "O"):
+            for n in range(1, 7):
+                s = lig + "[%s]" % sym + "".join("(%s)" % lig for _ in range(n - 2)) + (lig if n >= 2 else "")
+                m = Chem.MolFromSmiles(s)
+                if m is not None and oracle.closed_shell(s) and not hypervalent_h(s):
+                    out.append(Chem.MolToSmiles(m))
+                    break   # the smallest closed-shell coordination per ligand
+    return tuple(dict.fromkeys(out))
